@@ -28,11 +28,20 @@ def cases(tier, seed):
     nsys = 1 if tier == "quick" else 5
     cs = []
     for s in range(nsys):
-        spec = system_for({}, case_rng(seed, s, "C10"))
+        spec = c10_spec(case_rng(seed, s, "C10"))
         for n, o in spec["objects"].items():
             if o["cls"] != "System":
                 cs.append({"sys": s, "obj": n, "cls": o["cls"]})
     return [dict(c, seed=seed, idx=i, tier=tier) for i, c in enumerate(cs)]
+
+
+def c10_spec(rnd):
+    from .c14 import system_for
+    spec = system_for({}, rnd)
+    # durations longer than one hour, so that re-expressing them in days / years gives magnitudes below 1 (and above 1 in seconds)
+    spec["objects"]["jplain"]["params"]["request_duration"] = ["q", 4000, "s"]
+    spec["objects"]["jvid"]["params"]["video_duration"] = ["q", 90, "min"]
+    return spec
 
 
 def requirements(tier):
@@ -68,7 +77,7 @@ def run_case(case):
     E = env.load()
     from .c14 import system_for
     rnd = case_rng(case["seed"], case["sys"], "C10")
-    spec = system_for({}, rnd)
+    spec = c10_spec(rnd)
     # an on-premise server with a fixed count (normalised in __init__, read raw later) makes that parameter matter
     h = Hist(rnd, case["tier"], spec=spec, id_seed=case["seed"] * 100 + case["sys"])
     C = {k: 0 for k in ("parameters_covered", "rebuild_comparisons", "live_reassignments", "unit_edits", "influential_parameters",
